@@ -811,6 +811,69 @@ def gen_geom_case(rng, ndim):
     return dict(ndim=ndim, box=box, pos=pos, dist=dist)
 
 
+def regime_3d(r, hs):
+    """Regime of one area_3d_bounded row from its six wall distances hs = [x-, x+, y-, y+, z-, z+] (the code's own masks):
+    which of the cap / edge / corner terms are switched on, and whether the proved theorems cover the row
+    (all edge terms that are on belong to box edges parallel to one axis, no corner term:
+    C19_area_3d_single_cap_partial / C19_area_3d_edges_partial / C19_area_3d_parallel_edges_partial)."""
+    import itertools
+    reach = [[hs[2 * a + s] < r for s in range(2)] for a in range(3)]
+    axes_hit = [a for a in range(3) if any(reach[a])]
+    edge_on = any(hs[2 * a + sa] ** 2 + hs[2 * b + sb] ** 2 < r * r
+                  for a, b in ((0, 1), (0, 2), (1, 2)) for sa in range(2) for sb in range(2))
+    corner_on = any(hs[sx] ** 2 + hs[2 + sy] ** 2 + hs[4 + sz] ** 2 < r * r
+                    for sx, sy, sz in itertools.product(range(2), repeat=3))
+    if corner_on:
+        name = 'corner (three mutually adjacent faces, corner term on)'
+    elif edge_on:
+        name = 'edge overlap (two adjacent faces, caps overlap, edge term on)'
+    elif len(axes_hit) >= 2:
+        name = 'adjacent faces, caps do not overlap (sphere minus caps)'
+    elif len(axes_hit) == 1:
+        name = 'single axis (one cap or two opposite caps)'
+    else:
+        name = 'single axis (no face within reach)'
+    # C19_area_3d_parallel_edges_partial: for some axis, no cap of a face perpendicular to it overlaps a cap of a face parallel to it
+    proved = any(all(hs[2 * ax + s] ** 2 + hs[2 * b + sb] ** 2 >= r * r for s in range(2) for b in range(3) if b != ax for sb in range(2))
+                 for ax in range(3))
+    return name, proved
+
+
+def gen_geom3_regime_case(rng):
+    """3-D rows aimed at the regimes of two adjacent faces: caps disjoint / overlapping (incl. centre on a face or on the
+    edge), and a column (three or four faces parallel to one axis within reach); the faces of the remaining axis far."""
+    r = rng.choice([rng.uniform(0.3, 3.0), 1.0, 2.0])
+    kind = rng.choice(['disjoint', 'overlap', 'overlap', 'on-face', 'on-edge', 'column'])
+    th = rng.uniform(0.05, math.pi / 2 - 0.05)
+    if kind == 'disjoint':
+        s = rng.uniform(1.0, min(1 / math.cos(th), 1 / math.sin(th)))
+        d = [s * r * math.cos(th), s * r * math.sin(th)]
+    elif kind == 'overlap':
+        s = rng.uniform(0.02, 1.0)
+        d = [s * r * math.cos(th), s * r * math.sin(th)]
+    elif kind == 'on-face':
+        d = [0.0, rng.uniform(0.0, 1.2) * r]
+        rng.shuffle(d)
+    elif kind == 'on-edge':
+        d = [0.0, 0.0]
+    else:
+        d = [rng.uniform(0, 1.0) * r, rng.uniform(0, 1.0) * r]
+    ax = rng.randrange(3)                       # the axis parallel to the faces concerned
+    lat = [a for a in range(3) if a != ax]
+    box, pos = [None] * 3, [None] * 3
+    lo = rng.choice([0.0, rng.uniform(-5, 5)])
+    L = rng.uniform(2.2, 6.0) * r
+    box[ax] = [lo, lo + L]
+    pos[ax] = rng.uniform(lo + 1.05 * r, lo + L - 1.05 * r)
+    for k, a in enumerate(lat):
+        lo = rng.choice([0.0, rng.uniform(-5, 5)])
+        L = (rng.uniform(0.3, 1.9) * r + d[k]) if kind == 'column' else rng.uniform(2.2, 6.0) * r
+        L = max(L, d[k])
+        box[a] = [lo, lo + L]
+        pos[a] = (lo + L - d[k]) if rng.random() < 0.5 else (lo + d[k])
+    return dict(ndim=3, box=box, pos=[pos], dist=[r])
+
+
 def near_tangent(r, hs, ndim):
     """circle/sphere within 1e-7 of touching a wall, an edge or a corner without touching it exactly:
     the measure has a square-root singularity there and both computations lose digits"""
@@ -852,12 +915,20 @@ def eval_geom(chk, c):
         chk.tally('edge-correction %dD: %s' % (ndim, 'full' if ref >= full * (1 - 1e-9) else 'truncated by the box'))
         v = float(out[i])
         hs = [x for k in range(ndim) for x in (pos[i, k] - box[k, 0], box[k, 1] - pos[i, k])]
+        reg = None
+        if ndim == 3:
+            name, proved = regime_3d(r, [float(x) for x in hs])
+            reg = 'edge-correction 3D regime: %s; %s' % (name, 'edge terms on only along one axis, no corner term (proved regime)' if proved
+                                                         else 'edge terms of two directions or a corner term on (numerical reference only)')
+            chk.tally(reg)
         if near_tangent(r, hs, ndim):
             chk.tally('edge-correction within 1e-7 of a tangency (ill-conditioned, not compared)')
             continue
         if 0.5 * thr <= ref <= 2 * thr:
             chk.tally('edge-correction at the NaN threshold (not compared)')
             continue
+        if reg:
+            chk.tally(reg + ' -- compared with the numerical reference')
         if ref < 0.5 * thr:
             bad = not math.isnan(v)
         else:
@@ -945,7 +1016,8 @@ def run(chk):
     if not built:
         ng2, ng3 = 2 * ng2, 2 * ng3      # proof / translation broken: search harder for the concrete failing (dist, pos, box)
         chk.tally('edge-correction search doubled (translation or proof broken)')
-    for c in cgeom + [gen_geom_case(rng, 2) for _ in range(ng2)] + [gen_geom_case(rng, 3) for _ in range(ng3)]:
+    for c in (cgeom + [gen_geom_case(rng, 2) for _ in range(ng2)] + [gen_geom_case(rng, 3) for _ in range(ng3)]
+              + [gen_geom3_regime_case(rng) for _ in range(ng3 // 2)]):
         eval_geom(chk, c)
     t5 = time.time()
     chk.notes.append('wall seconds: cluster %.1f, from_pairs %.1f, proximity %.1f, g(r) %.1f, edge corrections %.1f' % (t1 - t0, t2 - t1, t3 - t2, t4 - t3, t5 - t4))
@@ -963,15 +1035,17 @@ def run(chk):
                             "ordered pair lists through Clusters.from_pairs (exact). "
                             "proximity: lattice sets with duplicates. g(r): lattice sets in 2-D/3-D with particles on walls/corners, default or given boundary/density, with and without edge handling, "
                             "against the Q model fed with independently computed arcs/areas; translation and permutation re-runs. edge corrections: generic float positions incl. on walls, in corners, "
-                            "circles larger than the box. non-trivial = cluster case with >=4 features and a merged cluster / >=3 pairs / >=3 points / >=4 particle pairs / measure truncated by the box; distinct by content hash")
+                            "circles larger than the box, plus 3-D rows aimed at two adjacent faces (caps disjoint / overlapping, centre on a face / on the edge) and columns. non-trivial = cluster case with >=4 features and a merged cluster / >=3 pairs / >=3 points / >=4 particle pairs / measure truncated by the box; distinct by content hash")
     chk.assumptions += [
         "cKDTree.query_pairs(r) returns exactly the pairs at distance <= r, cKDTree.query(distance_upper_bound=c) exactly the neighbours at distance < c (modelled, exercised by the correspondence)",
         "float distance arithmetic agrees with exact arithmetic on lattice inputs; pairs exactly at a separation that is not a power of two are skipped and counted",
         "np.histogram's propagation of a NaN weight into all later bins is not part of the model: bins from the first NaN bin on are not compared",
         "the edge measure enters the g(r) model as a table computed by vp/staticgeom.py (wall crossings in 2-D, hat-box quadrature in 3-D; agreement with trackpy's closed forms is what is checked, to 1e-9 r / 1e-8 r^2)",
-        "3-D closed forms sphere_edge_area / sphere_corner_area: only consistency identities are proved; their correctness as areas is covered numerically; "
-        "area_3d_bounded is proved to be the area inside the box only when the faces within reach are perpendicular to one axis (C19_area_3d_single_cap_partial), "
-        "the area being measured in the axial parametrisation about that axis (area element r dphi dt and independence of the axis: classical, not proved)",
+        "3-D: area_3d_bounded is proved to be the area inside the box when the faces within reach are perpendicular to one axis (C19_area_3d_single_cap_partial) "
+        "or all parallel to one axis -- two adjacent faces with disjoint or overlapping caps, columns -- (C19_area_3d_edges_partial; sphere_edge_area is the area of the lune, "
+        "C19_sphere_edge_area_is_lune), or more generally when every edge term that is switched on belongs to a box edge parallel to one axis (C19_area_3d_parallel_edges_partial), the area being measured in the axial parametrisation about that axis (area element r dphi dt proved; independence of the axis: classical, not proved); "
+        "with edge terms of two directions or a corner term (sphere_corner_area) switched on only consistency identities and the slice-integral characterisation (C19_area_3d_slice_integral_partial) are proved: "
+        "covered numerically; every 3-D row is tallied by regime ('edge-correction 3D regime: ...') and compared with the reference in each",
         "Gen/static_geom.v is produced by tools/py2coq_static.py (trusted translator, fail-closed; conventions in its docstring: one point of the numpy vector code over R, "
         "acc[mask] -= v read as acc - (if mask then v else 0), _protect_mask checked by abstract evaluation to be the elementwise conditional, 10**-5 / 10**-7 as exact "
         "reals, NaN as None; acos / asin / sqrt / division are total in Coq: the generated functions speak for the code where numpy stays in the domains, i.e. centre in the closed box, dist > 0)",
